@@ -74,7 +74,7 @@ static void c01_case (const Fmt *f, int ch, int type, long N, int g, const int32
 }
 
 static void run_c01 (void)
-{	static const int ch_quick [] = { 1, 2, 3, 0 }, ch_thorough [] = { 1, 2, 3, 5, 8, 0 } ;
+{	static const int ch_quick [] = { 1, 2, 3, 7, 0 }, ch_thorough [] = { 1, 2, 3, 5, 7, 8, 11, 0 } ;	/* 7 and 11 divide none of the staging sizes (2040, 2048, 4096; 11 also not 2730) */
 	const int *chs = vl_opts.thorough ? ch_thorough : ch_quick ;
 	static const int32_t alpha [5] = { INT32_MIN, -1, 0, 1, INT32_MAX } ;
 
@@ -293,6 +293,13 @@ void run_c04 (void)
 				for (int bi = 0 ; bi < 2 ; bi++) for (int type = 0 ; type < T_NTYPES ; type++)
 					if (vl_case ("C04 fmt=%s ch=%d rate=%d openframes=0 type=%s N=%ld split=0 big", f->name, ch, rate, type_names [type], big [bi]))
 					{	vl_root_count (f->name) ; c04_case (f, ch, rate, 0, type, big [bi], 0) ; }
+				}
+			/* the same with 7 channels (a count that divides neither the staging buffers nor the codecs' block sizes), once per format when 5 channels are done */
+			if (ch == 5 && rt_accepts (f, 7, rate))
+			{	int B7 = fmt_block (f, 7, rate) ; long big7 = 3001 ; (void) B7 ;	/* ten staging rounds: what a round loses adds up to more than a block */
+				for (int type = 0 ; type < T_NTYPES ; type++)
+					if (vl_case ("C04 fmt=%s ch=7 rate=%d openframes=0 type=%s N=%ld split=0 big", f->name, rate, type_names [type], big7))
+					{	vl_root_count (f->name) ; c04_case (f, 7, rate, 0, type, big7, 0) ; }
 				}
 			for (int oi = 0 ; open_frames [oi] ; oi++)
 			{	long ns [3] = { 0, 3, B > 1 ? B + 1 : 257 } ;
